@@ -43,6 +43,8 @@ type monitors struct {
 	callSnap     map[*call]map[string]bool // stored op ids (duid:sseq) when the call was released
 	honest       map[string]bool
 	pulledSeq    map[string][]string // client|key → op ids pulled, in order (from responses actually delivered)
+	pubChecked   map[*call]bool
+	entries      map[*call][]*entryExpect
 }
 
 type expectedPub struct {
@@ -56,7 +58,7 @@ type expectedPub struct {
 
 func newMonitors() *monitors {
 	return &monitors{lastReqCP: map[string]*model.CheckPoint{}, acked: map[string]map[string]uint64{}, pushed: map[string]map[string]string{},
-		pushers: map[string]bool{}, verSeen: map[string]uint64{}, callSnap: map[*call]map[string]bool{}, honest: map[string]bool{}, pulledSeq: map[string][]string{}}
+		pushers: map[string]bool{}, verSeen: map[string]uint64{}, callSnap: map[*call]map[string]bool{}, honest: map[string]bool{}, pulledSeq: map[string][]string{}, pubChecked: map[*call]bool{}, entries: map[*call][]*entryExpect{}}
 }
 
 func (m *monitors) afterSetup(r *run) {
@@ -152,6 +154,9 @@ func (m *monitors) onRequest(r *run, c *call, req interface{}) {
 		}
 	}
 	m.callSnap[c] = snap
+	if m.honest[c.client] && c.copies == 1 && r.on("entry") {
+		m.expectEntries(r, c, pp)
+	}
 	for _, p := range pp.PushPullPacks {
 		if m.honest[c.client] && c.copies == 1 {
 			k := c.client + "|" + p.Key
